@@ -159,7 +159,7 @@ func (e *Explorer) fetchModel() {
 	m, ok := e.solver.getValues(e.vars, e.vsorts)
 	if !ok {
 		e.solver.popInner()
-		panic(engineAbort{"cannot read model"})
+		panic(engineAbort{"cannot read model: " + trunc(LastSolverNote, 300)})
 	}
 	e.model = m
 	e.modelOK = true
@@ -172,6 +172,10 @@ func (e *Explorer) ensureModel() {
 		return
 	}
 	r := e.solver.checkSat(nil, true)
+	if r == "sat" && e.solver.lastFromFallback {
+		e.solver.lastFromFallback = false
+		panic(engineAbort{"primary solver gave up on the path condition (fallback says sat, no model available)"})
+	}
 	switch r {
 	case "sat":
 		e.fetchModel()
@@ -378,7 +382,10 @@ func (e *Explorer) RunPath(fn *ssa.Function, harness string, prefix []int64) (re
 	t0 := time.Now()
 	if e.solver == nil || e.pathsRun%1500 == 1499 {
 		if e.solver != nil {
-			e.solver.close()
+			func() {
+				defer func() { recover() }()
+				e.solver.close()
+			}()
 		}
 		e.solver = startSolver(PrimarySolver)
 	}
@@ -469,6 +476,15 @@ func (e *Explorer) RunPath(fn *ssa.Function, harness string, prefix []int64) (re
 		e.solver.raw("(pop 1)")
 		e.solver.in.Flush()
 	}()
+	if res.Status == "abort" && e.solver != nil {
+		// after an engine-side abort the solver's scope stack may be unbalanced: start afresh
+		func() {
+			defer func() { recover() }()
+			e.solver.cmd.Process.Kill()
+			e.solver.cmd.Wait()
+		}()
+		e.solver = nil
+	}
 	res.Decisions = e.decs
 	res.NewWork = e.newWork
 	res.Instrs = InstrCount - e.startInstrs
